@@ -55,7 +55,7 @@ def _exec_small(args):
     # 1. bulk: the whole grid in one float64 array through the constructor (ascending -> monotone clause)
     out.append(x_store.observe(fx, np, fmt, modes, vals, 'ndarray-f64', 'ctor', props, True, {'sorted': True}))
     # 2. every grid point as a scalar Python float, route rotating over the four scalar routes
-    sroutes = ['ctor', 'call', 'set_val', 'setitem', 'setitem-2d']
+    sroutes = ['ctor', 'call', 'set_val', 'setitem', 'setitem-2d', 'call-reset', 'recfg']
     for j, route in enumerate(sroutes):
         sub = vals[(rot + j) % len(sroutes)::len(sroutes)]
         if sub:
@@ -75,7 +75,7 @@ def _exec_small(args):
         pool = bvals
     for c, r in scal:
         out.append(x_store.observe(fx, np, fmt, modes, pool if tier == 'thorough' and r == 'ctor' else bvals, c, r, props, False))
-    aroutes = ['ctor', 'call', 'set_val', 'setitem-slice']
+    aroutes = ['ctor', 'call', 'set_val', 'setitem-slice', 'call-reset', 'recfg']
     acar = [c for c in x_store.ARRAY_CARRIERS if c != 'ndarray-f64']
     bv = bvals if len(bvals) % 2 == 0 else bvals[:-1]
     for i, c in enumerate(acar):
@@ -106,6 +106,15 @@ def _wide_values(rng, s, w, f, n, int_only=False):
         k4s.add(rng.randint(4 * (lo - span), 4 * (hi + span)))
         k4s.add(4 * rng.randint(lo - span, hi + span) + 2)          # tie
         k4s.add(4 * rng.randint(lo - span, hi + span))              # exact code
+    for _ in range(n):            # sparse far-away values  M * 2^t  (exact doubles although |v*2^f| reaches 2^61)
+        k4s.add(4 * rng.choice([-1, 1]) * rng.randint(1, 1 << rng.choice([1, 4, 10])) * (1 << rng.randint(0, 50)))
+        k4s.add(4 * (rng.randint(lo, hi) + rng.choice([-1, 1]) * span * (1 << rng.randint(0, max(0, 44 - w)))))
+    for tt in (w + 50, w + 51, w + 52, w + 53, 59, 60, 61):      # beyond the 53-bit mantissa relative to the word
+        if w + 50 <= tt <= 61:
+            for mant in (1, -1, 3, -3):
+                if abs(mant) << (tt - 1) < (1 << 62):
+                    k4s.add(4 * (mant << (tt - 1)))
+                    k4s.add(4 * ((mant << (tt - 1)) + (span >> 1)))
     out = []
     for k4 in k4s:
         v = F(k4, 4) / (F(2) ** f)
@@ -127,10 +136,10 @@ def _exec_wide(args):
     rng = random.Random(seed)
     props = PROPS_FOR[pid]
     out = []
-    sroutes = ['ctor', 'call', 'set_val', 'setitem', 'setitem-2d']
+    sroutes = ['ctor', 'call', 'set_val', 'setitem', 'setitem-2d', 'call-reset', 'recfg']
     for _ in range(count):
         s = rng.random() < 0.5
-        w = rng.choice([1, 2, 3, 7, 8, 9, 15, 16, 17, 24, 31, 32, 33, 40, 47, 48, 51, 52, rng.randint(1, 52)])
+        w = rng.choice([1, 2, 3, 5, 7, 8, 9, 10, 15, 16, 17, 24, 31, 32, 33, 40, 47, 48, 51, 52, rng.randint(1, 52), rng.randint(1, 10)])
         f = rng.choice([-8, -1, 0, 1, w // 2, w - 1, w, w + 1, w + 8, rng.randint(-8, w + 8)])
         r = rng.choice(ROUND)
         o = rng.choice(OVF) if pid != 'C03' else 'wrap'
@@ -144,7 +153,7 @@ def _exec_wide(args):
         if rng.random() < 0.5:
             ac = rng.choice(['ndarray-f64', 'list', 'tuple', 'ndarray-i64', 'nested-list', 'ndarray-f32', 'ndarray-i32', 'ndarray-u8',
                             'list-decstr', 'nested-tuple', 'ndarray-2d'])
-            ar = rng.choice(['ctor', 'call', 'set_val', 'setitem-slice'] if not (ac.startswith('nested') or ac == 'ndarray-2d') else ['ctor', 'call', 'set_val'])
+            ar = rng.choice(['ctor', 'call', 'set_val', 'setitem-slice', 'call-reset', 'recfg'] if not (ac.startswith('nested') or ac == 'ndarray-2d') else ['ctor', 'call', 'set_val', 'recfg'])
             vv = sorted(vals) if len(vals) % 2 == 0 else sorted(vals)[:-1]
             if vv:
                 out.append(x_store.observe(fx, np, (s, w, f), (r, o), vv, ac, ar, props, True, {'sorted': True}))
@@ -165,7 +174,7 @@ def _exec_wide(args):
             ks = [lo, hi, lo - 1, hi + 1, 0, -1, 1, (1 << w), -(1 << w), (1 << w) + 5, 3 * (1 << w) - 1, rng.randint(lo, hi),
                   rng.choice([-1, 1]) * rng.getrandbits(2 * w), rng.choice([-1, 1]) * rng.getrandbits(4 * w), (1 << 63), (1 << 64) - 1,
                   -(1 << 63) - 1, (1 << 1000) + rng.getrandbits(64)]
-            route = rng.choice(['ctor', 'call', 'set_val', 'setitem'])
+            route = rng.choice(['ctor', 'call', 'set_val', 'setitem', 'call-reset', 'recfg'])
             out.append(x_store.observe(fx, np, (s, w, f), ('trunc', 'wrap'), [F(k) for k in ks], 'pyint', route, props, False,
                                        {'wide': True}))
     return [o for o in out if o is not None]
